@@ -29,7 +29,7 @@ import sys
 from fractions import Fraction
 
 from . import common
-from .common import coq_Z, coq_bool, coq_list, coq_nat, parse_eval_lists, shards
+from .common import coq_bool, coq_list, coq_nat, parse_eval_lists, shards
 
 NAMES = ["meter", "centimeter", "foot", "inch"]
 # the property's constants: length of one unit in metres
@@ -248,9 +248,24 @@ def regen_table(im):
 # --------------------------------------------------------------------------
 # Coq literals
 
+def hexZ(n):
+    """hex literals: Coq interprets them in time linear in their length"""
+    n = int(n)
+    return "(-0x%x)%%Z" % -n if n < 0 else "0x%x%%Z" % n
+
+
 def coq_Q(x):
+    """int / float / Fraction as an exact Q term; a float is m * 2^e"""
+    if isinstance(x, float):
+        num, den = x.as_integer_ratio()
+        if den == 1:
+            e = (num & -num).bit_length() - 1 if num else 0
+            return "(fl %s %s)" % (hexZ(num >> e), hexZ(e))
+        return "(fl %s %s)" % (hexZ(num), hexZ(-(den.bit_length() - 1)))
     f = Fraction(x)
-    return "(Qmake %s %d%%positive)" % (coq_Z(f.numerator), f.denominator)
+    if f.denominator == 1:
+        return "(fl %s 0%%Z)" % hexZ(f.numerator)
+    return "(Qmake %s 0x%x%%positive)" % (hexZ(f.numerator), f.denominator)
 
 
 def coq_obs(r, f=coq_Q):
@@ -657,7 +672,33 @@ def oracle_units(im, r, n, first=()):
     return None
 
 
+def shrink_forest(im, v):
+    """keep only the units on the chains of the units involved; simplest value"""
+    spec = [(p, dec(a), dec(b)) for p, a, b in v["forest"]]
+    keep = set()
+    for u in (v["a"], v["b"], v.get("c")):
+        while u is not None and u not in keep:
+            keep.add(u)
+            u = spec[u][0]
+    order = sorted(keep)
+    ren = {u: i for i, u in enumerate(order)}
+    small = [(None if spec[u][0] is None else ren[spec[u][0]], spec[u][1], spec[u][2]) for u in order]
+    c = v.get("c")
+    best = v
+    for x in (Fraction(1), Fraction(0), dec(v["x"])):
+        w = check_forest(im, v["clause"], small, ren[v["a"]], ren[v["b"]], None if c is None else ren[c], x)
+        if w:
+            best = w
+            break
+    return best
+
+
 def oracle_forests(im, r, n, first=()):
+    v = oracle_forests_raw(im, r, n, first)
+    return shrink_forest(im, v) if v else None
+
+
+def oracle_forests_raw(im, r, n, first=()):
     xs = [Fraction(1), Fraction(0), Fraction(7, 2), Fraction(-3)]
     specs = list(first)
     # smallest first: single chains of depth 1..6, linear then affine
